@@ -984,10 +984,11 @@ class ArgumentParser(ParserDeprecations, ActionsContainer, ArgumentLinking, argp
             files = sorted(glob.glob(os.path.expanduser(pattern)))
             default_config_files += [(None, x) for x in files]
 
-        if len(default_config_files) > 0:
-            with suppress(TypeError):
-                return [(k, Path(v, mode=get_config_read_mode())) for k, v in default_config_files]
-        return []
+        paths = []
+        for k, v in default_config_files:
+            with suppress(TypeError):  # not a readable file (e.g. a directory matched by a pattern): skipped, the others still apply
+                paths.append((k, Path(v, mode=get_config_read_mode())))
+        return paths
 
     def get_default(self, dest: str) -> Any:
         """Gets a single default value for the given destination key.
